@@ -148,3 +148,16 @@ claim('C15',
       'NOT claimed (deciding computation is LAPACK/C behind FFI, no encoding within reach; with concrete matrices the claim would degenerate '
       'to a unit test): computechi2 (numpy.linalg.svd), pcomp and HMF.reorder (eigh), pca_solve, k-means seeding / seed determinism, '
       '"caller\'s arrays not modified". numpy.linalg.solve is an exact-rational contract stub.', 'DESIGN.md 4/C15')
+claim('C11',
+      'PARTIAL. combine1fiber (1-D), aesthetics, djs_maskinterp, smooth and the shift arithmetic of preprocess_spectra are executed with the '
+      'spline fit replaced by an ARBITRARY fit outcome (fresh symbolic flux per evaluated pixel, symbolic evaluation mask, symbolic '
+      'rejection mask), symbolic flux and symbolic non-negative inverse variance with a symbolic zero pattern, on concrete input/output grids '
+      '(same, shifted, wider, narrower, coarser): for every such outcome the outputs have the grid\'s length, ivar >= 0, ivar == 0 for every '
+      'output pixel that does not lie between two adjacent good (positively weighted, not rejected) input pixels, every non-zero ivar equals '
+      'the linear interpolation of the input ivar and never exceeds its local maximum, aesthetics changes flux only where ivar is 0, the '
+      'no-good-pixel case returns zeros, scaling the input ivar scales the output ivar, and preprocess_spectra hands each object\'s own row '
+      'to the resampler on the grid L - log10(1+z).',
+      'The spline fit itself is not part of this check (covered by C08-C10); "finite" cannot be expressed in exact reals; identity/constant-'
+      'spectrum accuracy is a statement about the fit; stacked 2-D exposures need >= 101 pixels per exposure and are outside any explorable '
+      'bound. An output pixel that coincides with a good input pixel counts as lying between (same-grid resampling is the identity). The '
+      'scaling law is shown for weights >= 1 and factors >= 1e-3 (the code treats |ivar| < float32 eps as no weight).', 'DESIGN.md 4/C11')
